@@ -247,12 +247,24 @@ MUTANTS += (
      "type Bar9 implements Holder9 {\n  item: Node9\n}\n\n"
      "extend type %(q)s {\n  m_foo9: Foo9\n  m_bar9: Bar9\n}"),
 )
+MUTANTS += (
+    # a violation of the interface's OWN (an argument of output type) next to
+    # an implementation violation on an object implementing it: both are
+    # reported, whichever of the two types the walk meets first
+    ("interface-own-and-implementation",
+     "interface Node7 {\n  id: String\n  created(tz: Obj7): String\n}\n\n"
+     "type Obj7 {\n  a: Int\n}\n\n"
+     "type Item7 implements Node7 {\n  id: Int\n  created(tz: String): "
+     "String\n}\n\n"
+     "extend type %(q)s {\n  m_item7: Item7\n  m_obj7: Obj7\n}"),
+)
 # violations each labelled mutant injects ("reporting all violations together")
-MUTANT_COUNTS = {"three-on-one-pair": 3}
+MUTANT_COUNTS = {"three-on-one-pair": 3, "interface-own-and-implementation": 2}
 # documents whose acceptance is a violation whatever else they hold (the
 # older ones only feed the order / message-set comparison)
 MUTANT_MUST_REJECT = ("three-on-one-pair", "extra-required-arg",
-                      "covariance-both-directions")
+                      "covariance-both-directions",
+                      "interface-own-and-implementation")
 
 
 def run_machine(draws, state, tier):
@@ -300,6 +312,19 @@ def run_machine(draws, state, tier):
                     "Sh2", common + [Field("label", Int)],
                     default_resolver=r_two)
                 members["sh3"] = ObjectType("Sh3", common + [Field("y", Int)])
+            if "ifaceown" in flavour:
+                # a violation of the interface's own (an argument declared
+                # twice) and an implementation violation on its object
+                from py_gql.schema import Argument as _Arg
+                node7 = InterfaceType("Node7", [
+                    Field("id", String),
+                    Field("created", String,
+                          [_Arg("tz", String), _Arg("tz", String)])])
+                members["node7"] = node7
+                members["item7"] = ObjectType("Item7", [
+                    Field("id", Int),
+                    Field("created", String, [_Arg("tz", String)])],
+                    interfaces=[node7])
             if "union" in flavour:
                 members["u"] = UnionType("AnyOf", [foo1, bar])
             baz = ObjectType("Baz", [Field("foo", foo1), Field("bar", bar)])
@@ -321,7 +346,8 @@ def run_machine(draws, state, tier):
                 return ("invalid", (str(err),))
             return ("valid", ())
 
-        flavour = [f for f in ("dup", "noimpl", "union", "sharedfield")
+        flavour = [f for f in ("dup", "noimpl", "union", "sharedfield",
+                               "ifaceown")
                    if st.chance(1, 2, "flavour_" + f)]
         verdicts = []
         for _k in range(4):
